@@ -44,7 +44,7 @@ ASSUMPTIONS = [
 EXHAUSTIVE = {"quick": "operation histories up to length 4; round-trip name sequences up to length 3",
               "thorough": "operation histories up to length 5; round-trip name sequences up to length 4"}
 REQUIRED = ["invariant_evaluations", "contract_evaluations_append", "contract_evaluations_insert",
-            "states_two_duplicate_families", "roundtrip_files", "lasfile_getitem_resolutions"]
+            "states_two_duplicate_families", "roundtrip_files", "lasfile_getitem_resolutions", "surplus_column_files", "surplus_exactly_one_column"]
 SOFT_DEADLINE = {"quick": 90, "thorough": 1500}
 LEVEL_TEXT = ("Bounded-exhaustive exploration of section edit histories with an invariant checked at every "
               "quiescent point and icontract post-conditions on the real append/insert, plus write->read round "
@@ -206,6 +206,11 @@ def grid(tier):
             for section in ("Curves", "Well", "Parameter"):
                 for version in (1.2, 2.0):
                     yield {"kind": "roundtrip", "names": list(seq), "section": section, "version": version}
+    for n in range(0, 3):
+        for seq in itertools.product(["A", "", "UNKNOWN", "unknown"], repeat=n):
+            for surplus in (0, 1, 2, 3):
+                for mc in ("preserve", "upper", "lower"):
+                    yield {"kind": "surplus", "names": list(seq), "surplus": surplus, "mnemonic_case": mc, "engine": "numpy" if (surplus + n) % 2 else "normal"}
     for fn in sorted(glob.glob(os.path.join(env.REPO, "tests", "examples", "**", "*.las"), recursive=True)):
         for mc in ("preserve", "upper", "lower"):
             yield {"kind": "corpus", "file": os.path.relpath(fn, env.REPO), "mnemonic_case": mc}
@@ -240,6 +245,44 @@ def run_case(case, ctx):
         run_roundtrip(ctx, case)
     elif kind == "corpus":
         run_corpus(ctx, case)
+    elif kind == "surplus":
+        run_surplus(ctx, case)
+
+
+def run_surplus(ctx, case):
+    """A file whose data section carries more columns than ~C declares: the library itself appends unnamed curves during
+    the read, next to declared curves that may already be blank or literally called UNKNOWN."""
+    lasio = ctx.lasio
+    names, s, mc, engine = case["names"], case["surplus"], case["mnemonic_case"], case["engine"]
+    lines = ["~Version", "VERS. 2.0 : v", "WRAP. NO : w", "~Well", "STRT.m 1.0 : s", "STOP.m 2.0 : s", "STEP.m 0.5 : s", "NULL. -999.25 : n", "~Curves", "DEPT.m : depth"]
+    for i, nm in enumerate(names):
+        lines.append("%-6s.ohmm : curve %d" % (nm, i))
+    lines.append("~ASCII")
+    ncols = 1 + len(names) + s
+    for r in range(3):
+        lines.append(" ".join("%.1f" % (1.0 + 0.5 * r + 10 * j) for j in range(ncols)))
+    text = "\n".join(lines) + "\n"
+    try:
+        las = lasio.read(text, mnemonic_case=mc, engine=engine)
+    except Exception as e:
+        ctx.violation("surplus-read-raised:%s" % type(e).__name__, "reading %d declared + %d surplus columns raised %r" % (len(names), s, e), {"case": case, "text": text})
+        return
+    ctx.count("surplus_column_files")
+    if s == 1:
+        ctx.count("surplus_exactly_one_column")
+    f = {"preserve": str, "upper": str.upper, "lower": str.lower}[mc]
+    want_orig = [f("DEPT")] + [f(n) for n in names] + [""] * s
+    got_orig = [it.original_mnemonic for it in secops.raw_items(las.curves)]
+    if got_orig != want_orig:
+        ctx.violation("surplus-originals-differ", "original mnemonics %r, expected %r" % (got_orig, want_orig), {"case": case, "text": text})
+        return
+    invariant(ctx, las.curves, "read with %d surplus columns (%s, %s)" % (s, mc, engine), las=las)
+    want = namesref.sessions(want_orig, norm=(mc != "preserve"))
+    got = [it.mnemonic for it in secops.raw_items(las.curves)]
+    if got != want:
+        ctx.violation("surplus-session-names-differ-from-model", "session names %r, model %r" % (got, want), {"case": case, "text": text})
+    nt = "" in names or "UNKNOWN" in [n.upper() for n in names] or s > 1
+    ctx.case_done(["surplus", names, s, mc, engine], nontrivial=nt)
 
 
 def run_history(ctx, ops, norm, check_all_steps, curves=False):
